@@ -10,8 +10,7 @@ Open Scope Z_scope.
 
 Module C04.
 
-Theorem C04_open_easy_total : forall mbuf c n k,
-  (length c - 16 <= length mbuf)%nat -> fst (open_easy_c mbuf c n k) <> Panic.
+Theorem C04_open_easy_total : forall mbuf c n k, fst (open_easy_c mbuf c n k) <> Panic.
 Proof. exact sb_open_easy_total. Qed.
 
 Theorem C04_open_easy_inplace_total : forall cbuf n k, fst (open_easy_inplace_c cbuf n k) <> Panic.
@@ -27,8 +26,7 @@ Proof. exact ss_obj_pull_never_panics. Qed.
 
 (* non-vacuity: a 5-byte "ciphertext" is an error, not a panic *)
 (* public-key and sealed boxes from an untrusted sender *)
-Theorem C04_box_open_total : forall mbuf c n pk sk,
-  (length c - 16 <= length mbuf)%nat -> fst (BoxImpl.open_easy mbuf c n pk sk) <> Panic.
+Theorem C04_box_open_total : forall mbuf c n pk sk, fst (BoxImpl.open_easy mbuf c n pk sk) <> Panic.
 Proof. exact box_open_total. Qed.
 
 Theorem C04_box_open_inplace_total : forall cbuf n pk sk, fst (BoxImpl.open_easy_inplace cbuf n pk sk) <> Panic.
